@@ -717,6 +717,12 @@ fn render_module(t: &Tree, m: usize) -> String {
                 let _ = writeln!(s, "enum Color {{ Red, Green }}");
             }
         }
+    } else if let Some(c) = md.children.iter().find(|c| t.mods[**c].has_type) {
+        // a type declaration whose field type comes through a top-level import of the module
+        if !md.imports.iter().any(|q| q.last().map(|x| x == "Color").unwrap_or(false)) {
+            let cn = &t.mods[*c].name;
+            let _ = writeln!(s, "import {cn}.Color;\nrecord Holder {{ c: Color, n: i32 }}\nfn holder_depth() -> i32 {{ let h = Holder {{ c: Color.Green, n: 2 }}; match h.c {{ Green => h.n, _ => 0 }} }}");
+        }
     }
     for (i, p) in t.probes.iter().enumerate() {
         if p.module != m {
